@@ -42,7 +42,7 @@ def make_cases(seed: int, tier: str, n_cases: int | None = None) -> list[dict]:
         r = rng(cs, "opts")
         if idx % 4 == 3:
             # probe packages: input forms that used to abort the tool (fixed list, see vsim/probes.py)
-            k = r.randint(3, 6)
+            k = r.randint(8, 12)
             names = [probe_names[(idx // 4 * 5 + j * 7 + seed) % len(probe_names)] for j in range(k)]
             pkg = probes.probe_package(sorted(set(names)))
         else:
